@@ -404,16 +404,13 @@ func decodeFloat64Key(dec *mapDecoder, raw string) (interface{}, error) {
 }
 
 func decodeJsonNumberKey(dec *mapDecoder, raw string) (interface{}, error) {
-	// skip the quote
-	raw = raw[1 : len(raw)-1]
-	end, ok := SkipNumberFast(raw, 0)
-
-	// check trailing chars
-	if !ok || end != len(raw) {
-		return nil, error_value(raw, rt.JsonNumberType.Pack())
+	// json.Number is a string kind: like encoding/json and the JIT decoder,
+	// take the key text as it is instead of requiring it to be a number
+	key, err := Unquote(raw)
+	if err != nil {
+		return nil, err
 	}
-
-	return json.Number(raw[0:end]), nil
+	return json.Number(key), nil
 }
 
 type mapDecoder struct {
